@@ -34,9 +34,9 @@ def cases(tier, seed):
     out = []
     for c in C26.cases(tier, seed):
         c = dict(c)
-        if tier == "thorough" and c["k"] == 3 and not (c["grid"] == "uniform" or (c["grid"] == "rect_distinct" and c["ax"] == 0 and c["tmpl"] in (0, 3))):
+        if tier == "thorough" and c["k"] == 3 and not (c["ax"] == 0 and (c["grid"] == "uniform" or (c["grid"] == "rect_distinct" and c["tmpl"] in (0, 3)))):
             continue  # 36 schedules per 3-constraint system: non-uniform grids are covered completely for k<=2 (see bounds)
-        if tier == "thorough" and c["with_c"] and (c["grid"] == "rect_seed" or c["tmpl"] % 2):
+        if tier == "thorough" and c["with_c"] and (c["grid"] == "rect_seed" or c["tmpl"] % 2 or (c["k"] == 2 and c["ax"] != 0)):
             continue  # 4 objects = 24 object orders: every second template, two grids
         c["conf"] = c["k"] <= 1 and not c["with_c"] and c["tmpl"] in CONF_TEMPLATES
         out.append(c)
@@ -49,13 +49,22 @@ def bounds(tier, seed):
     b = C26.bounds(tier, seed)
     b["schedules"] = "all permutations of the object list (volume included: 3! / 4!) x all distinct permutations of the constraint list"
     if tier == "thorough":
-        b["note"] = "3-constraint systems: uniform grid (all axes, all templates) and rect_distinct (axis 0, templates 0 and 3); all grids for <=2 constraints; 4-object systems (<=2 constraints) on uniform and rect_distinct, every second template"
+        b["note"] = "3-constraint systems: primary axis x, uniform grid (all templates) and rect_distinct (templates 0 and 3); <=2 constraints: all grids, axes, templates; 4-object systems (<=2 constraints): uniform and rect_distinct, every second template, two-constraint systems on axis x"
     b["place_objects_conformance"] = "systems with <=1 entry on templates 0 and 3: original and fully reversed lists through place_objects"
     return b
 
 
-def _canon(ok, slices):
-    return json.dumps([ok, slices if ok else None], sort_keys=True)
+def _resolve_raw(objs, cons, cfg):
+    """One transition: the real resolver on one schedule; (success, slices as returned, error texts)."""
+    from fdtdx.fdtd.initialization import resolve_object_constraints
+
+    try:
+        sl, err = resolve_object_constraints(objects=objs, constraints=cons, config=cfg)
+    except Exception as e:  # documented hard errors
+        return False, None, {"_raise": f"{type(e).__name__}: {e}"[:300]}
+    bad = {k: str(v)[:200] for k, v in err.items() if v}
+    ok = not bad and not any(x is None for s in sl.values() for ax in s for x in ax)
+    return ok, sl, bad
 
 
 def run_case(case):
@@ -89,18 +98,26 @@ def run_case(case):
                 cp2.append(cp)
         cperms = cp2
         reached = {}
-        for op in operms:
-            for cp in cperms:
-                ok, slices, err = P.resolve([objs[i] for i in op], [cons[i] for i in cp], cfg)
+        olists = [[objs[i] for i in op] for op in operms]
+        clists = [[cons[i] for i in cp] for cp in cperms]
+        for op, ol in zip(operms, olists):
+            for cp, cl in zip(cperms, clists):
+                ok, sl, err = _resolve_raw(ol, cl, cfg)
                 transitions += 1
-                reached.setdefault(_canon(ok, slices), []).append((op, cp, ok, slices, err))
+                key = (ok, tuple(sorted(sl.items())) if ok else None)
+                hit = reached.get(key)
+                if hit is None:
+                    slices = {k: [list(ax) for ax in v] for k, v in sl.items()} if sl is not None else None
+                    reached[key] = [(op, cp, ok, slices, err)]
+                else:
+                    hit.append((op, cp, ok, None, None))
         states += len(reached)
         ref = reached[next(iter(reached))][0]
         outcome["success" if ref[2] else "rejected"] = outcome.get("success" if ref[2] else "rejected", 0) + 1
         if len(operms) * len(cperms) > 1 and ref[2] and P.binds(s, ref[3]):
             nontriv += 1
         if len(reached) > 1:
-            flags = {json.loads(k)[0] for k in reached}
+            flags = {k[0] for k in reached}
             what = "success-flag-depends-on-order" if len(flags) > 1 else "slices-depend-on-order"
             # which list matters: vary one while the other keeps its original order
             id_o, id_c = operms[0], cperms[0]
